@@ -51,7 +51,20 @@ def run(ctx):
             rc += c
             rp += p_
     ctx.require('C08 widening routing cells proved', rp, 162)
+    # widen-then-narrow is the identity: the narrowing code run on the routed (symbolic) widened value
+    wc = wp = 0
+    for src, dst in PAIRS[:3]:
+        widen = anchor(ctx, prog, dst, 'from_' + LOWER[src.name])
+        narrow = anchor(ctx, prog, src, 'from_' + LOWER[dst.name])
+        if widen and narrow:
+            c, p_ = rules_routing.float_round_trip(ctx, prog, src, LOWER[dst.name], to=widen, fr=narrow,
+                                                   label='%s::from_%s(%s::from_%s)' % (src.name, LOWER[dst.name], dst.name, LOWER[src.name]))
+            wc += c
+            wp += p_
+    ctx.count('widen_narrow_cells', wc)
+    ctx.count('widen_narrow_cells_proved', wp)
+    ctx.require('C08 widen-then-narrow cells proved', wp, 150)
     ctx.require('C08 decided cells', tot, 200)
-    ctx.undecided['general_path'] = 'guard+sticky rounding of the narrowing conversions between the saturation thresholds; widen-then-narrow identity'
+    ctx.undecided['general_path'] = 'guard+sticky rounding of the narrowing conversions between the saturation thresholds (for values that are not images of the narrower format)'
     return LEVEL, ('Zero/NaR preservation and saturation thresholds of the six conversions (both spellings) decided per cell; '
                    'the three widening conversions are proved exact for every bit pattern by bit-routing equality per regime cell (R7).')
